@@ -47,6 +47,12 @@ fn rule_json(scanner: &Scanner, r: &EvaluatedRule) -> Value {
 }
 
 pub fn run(case: &Value) -> Value {
+    if case["special"].as_str() == Some("modules") {
+        // what `boreal list-modules` / `boreal yr -M` must print (sorted by the tool)
+        let compiler = boreal::Compiler::new();
+        let names: Vec<String> = compiler.available_modules().map(|s| hex(s.as_bytes())).collect();
+        return json!({"modules": names});
+    }
     // every path of the case is relative to cwd, exactly as for the CLI invocation
     std::env::set_current_dir(Path::new(get_str(case, "cwd"))).expect("cwd");
     let mut compiler = build_compiler(case);
